@@ -708,7 +708,10 @@ class Node:
                 item_value_node.yaml_node.end_mark = item_value.end_mark
                 item_value_node.set_attribute(value_attribute, ynode)
 
-            item_value_node.set_attribute(key_attribute, item_key.value)
+            # keep the position of the key, for error messages
+            item_value_node.set_attribute(key_attribute, yaml.ScalarNode(
+                'tag:yaml.org,2002:str', item_key.value,
+                item_key.start_mark, item_key.end_mark))
             object_list.append(item_value_node.yaml_node)
         seq_node = yaml.SequenceNode('tag:yaml.org,2002:seq', object_list,
                                      start_mark, end_mark)
